@@ -306,7 +306,11 @@ let () =
                | Some v ->
                  if not (Hashtbl.mem clauses_hit v.clause) then begin
                    Hashtbl.add clauses_hit v.clause ();
-                   monitor { v with observed = v.observed ^ tail }
+                   monitor { v with observed = v.observed ^ tail };
+                   (* the key events that reach the virtual keyboard are not the mapper's: every mapper property that speaks
+                      about events on the virtual keyboard is no longer delivered by the program (C18_virtual_keyboard_sees_
+                      mapper_outputs is the theorem on the model's side); those properties listen to this clause *)
+                   if v.clause = "C10.real_epoll" then monitor { v with clause = "DEVICE.key_events"; observed = v.observed ^ tail }
                  end in
            phase "after-the-key-history" c.obs1 exp1 impl1;
            (match c.obs2 with
